@@ -7,12 +7,38 @@ SYM = "ACGT"
 S = 2     # scores are scaled by 2 (gap costs of 0.5 and 1.5 are exact)
 
 
+def fresh(kind, x):
+    """Symbol number x as a NEW object on every call: equal to, but never identical with, its other occurrences
+    (symbols are compared by value: sequences of arbitrary hashable items are documented input)."""
+    if kind == "tuple":
+        return tuple([x, 1000 + x])
+    if kind == "bigint":
+        return int("1%03d" % x)              # > 256: not one of CPython's shared small integers
+    if kind == "word":
+        return "".join(["sym", SYM[x]])      # built at run time: not interned
+    return SYM[x]
+
+
+def decode(kind, v, A):
+    if isinstance(v, str) and v == "-":
+        return -1
+    for x in range(A):
+        if fresh(kind, x) == v:
+            return x
+    return -7
+
+
 def run_c17(it):
     from dtaidistance import alignment
-    s1 = "".join(SYM[x] for x in it["s1"])
-    s2 = "".join(SYM[x] for x in it["s2"])
-    if it.get("aslist"):
-        s1, s2 = list(s1), list(s2)
+    kind = it.get("symbols", "char")
+    if kind == "char":
+        s1 = "".join(SYM[x] for x in it["s1"])
+        s2 = "".join(SYM[x] for x in it["s2"])
+        if it.get("aslist"):
+            s1, s2 = list(s1), list(s2)
+    else:
+        s1 = [fresh(kind, x) for x in it["s1"]]
+        s2 = [fresh(kind, x) for x in it["s2"]]
     sc = it["scoring"]
     A = it["A"]
     # score table as the specification sees it (maximise), scaled by S
@@ -25,13 +51,13 @@ def run_c17(it):
         sub = [[(S if a == b else -S) for b in range(A)] for a in range(A)]
         mod = 1 if sc["opt"] == "max" else -1
         for (a, b, v) in sc["entries"]:          # v in half units
-            matrix[(SYM[a], SYM[b])] = mod * v / S
+            matrix[(fresh(kind, a), fresh(kind, b))] = mod * v / S
             sub[a][b] = v
             if not sc.get("asym"):
                 sub[b][a] = v         # one orientation listed: the library looks the pair up in either order
         subst = alignment.make_substitution_fn(matrix, gap=sc["gap"] / S, opt=sc["opt"])
         gap = -sc["gap"]
-    route = "needleman_wunsch[%s]" % sc["kind"]
+    route = "needleman_wunsch[%s%s]" % (sc["kind"], "" if kind == "char" else ",symbols=" + kind)
     r = dtwx.guarded(lambda: alignment.needleman_wunsch(s1, s2, substitution=subst))
     if dtwx.is_raised(r):
         return {"id": it["id"], "route": route + ":raised", "value": -999999, "scores": [], "aligns": [], "sub": sub,
@@ -49,11 +75,11 @@ def run_c17(it):
             aligns.append({"route": name + ":raised", "a1": [0], "a2": []})
         else:
             _p, a1, a2 = ra
-            aligns.append({"route": name, "a1": [(-1 if x == "-" else SYM.index(x)) for x in a1],
-                           "a2": [(-1 if x == "-" else SYM.index(x)) for x in a2]})
+            aligns.append({"route": name, "a1": [decode(kind, x, it["A"]) for x in a1],
+                           "a2": [decode(kind, x, it["A"]) for x in a2]})
     ra = dtwx.guarded(lambda: alignment.best_alignment(paths, s1, s2))
     if not dtwx.is_raised(ra):
-        aligns.append({"route": "best_alignment[default]", "a1": [(-1 if x == "-" else SYM.index(x)) for x in ra[1]],
-                       "a2": [(-1 if x == "-" else SYM.index(x)) for x in ra[2]]})
+        aligns.append({"route": "best_alignment[default]", "a1": [decode(kind, x, it["A"]) for x in ra[1]],
+                       "a2": [decode(kind, x, it["A"]) for x in ra[2]]})
     return {"id": it["id"], "route": route, "value": enc(value), "scores": [[enc(v) for v in row] for row in scores],
             "aligns": aligns, "sub": sub, "gap": gap, "routes": [route] + [a["route"] for a in aligns]}
